@@ -157,4 +157,38 @@ PROPS = {
             {"name": "paired-histories", "test": "TestProp_C14", "kind": "rapid", "checks_quick": 400, "checks_thorough": 15000, "shards": 6},
         ],
     },
+    "C06": {
+        "manifest": {
+            "text": "generated write/sync/compact/snapshot histories over 1-8 level layouts; every file created at level >=1 is decoded and compared (page set, page images, commit, TXID range, timestamp, file time) with a naive sequential re-composition of the archived level-0 files; per-level contiguity; restores of sampled TXIDs compared before/after each compaction and against level-0-only restores",
+            "note": "no storage faults, no retention (level-0 files archived by the harness); re-composer uses only the ltx decoder, not ltx.Compactor",
+            "technique": "stateful property-based testing (rapid) with an independent re-composition oracle and metamorphic restore equality",
+        },
+        "binary": "props",
+        "level": "exploration",
+        "rule": ("histories of 10-40 steps (70 thorough) over {application ops incl. shrink/VACUUM and application checkpoints, SyncAndWait, "
+                 "Compact(l) for every configured l, Store.CompactDB(l|snapshot), Snapshot, litestream checkpoints} x level layouts of 1..8 "
+                 "levels. Non-trivial = a compaction whose input range contains a shrink, an in-chain full snapshot, or >=2 files at a level >=2; "
+                 "distinct = hash of (config, abstracted ops)."),
+        "assumptions": ["file replica client only"],
+        "runs": [
+            {"name": "histories", "test": "TestProp_C06", "kind": "rapid", "checks_quick": 400, "checks_thorough": 15000, "shards": 6},
+        ],
+    },
+    "C07": {
+        "manifest": {
+            "text": "C06 histories plus retention passes (snapshot retention by age directly and through Store with cascade, level-0 retention by time, retention by TXID) with file ages placed around the thresholds and deletion enabled or delegated; after each pass: no deletion when disabled, a snapshot remains, level-0 survivors contiguous up to the newest, latest TXID reachable by brute-force planning, and the latest restore equals the source page for page",
+            "note": "file ages are set with Chtimes at +-1h/seconds-apart positions so outcomes do not depend on test speed; EnforceRetentionByTXID is called with the precondition its caller establishes (floor = MaxTXID of an existing snapshot, levels >= 1)",
+            "technique": "stateful property-based testing (rapid) with invariants over the replica listing plus the R1 page oracle",
+        },
+        "binary": "props",
+        "level": "exploration",
+        "rule": ("C06 histories with retention passes: each pass first re-ages every replica file (all 3h old / newest third recent / arbitrary) and then runs "
+                 "one of EnforceSnapshotRetention(ts), Store.EnforceSnapshotRetention (cascade), EnforceL0RetentionByTime, EnforceRetentionByTXID, "
+                 "Compact(1); RetentionEnabled in {true,false}, L0Retention in {1ns,1h}. Non-trivial = a pass deleted at least one file; distinct = "
+                 "hash of (config, abstracted ops)."),
+        "assumptions": ["file replica client only"],
+        "runs": [
+            {"name": "histories", "test": "TestProp_C07", "kind": "rapid", "checks_quick": 400, "checks_thorough": 15000, "shards": 6},
+        ],
+    },
 }
